@@ -107,11 +107,12 @@ func init() {
 			kind string
 			real bool
 			b    peerBehaviour
+			op   *Op
 		}
 		var jobs []job
 		for _, kind := range []string{"tcp", "tcp+tls", "rtuovertcp", "rtu"} {
 			for _, b := range c07Behaviours(r) {
-				jobs = append(jobs, job{kind, false, b})
+				jobs = append(jobs, job{kind, false, b, nil})
 			}
 		}
 		for _, kind := range []string{"tcp", "udp", "rtuovertcp", "rtuoverudp"} {
@@ -119,7 +120,37 @@ func init() {
 				if strings.HasPrefix(b.name, "stall-after-") && b.name != "stall-after-3" && b.name != "stall-after-8" {
 					continue
 				}
-				jobs = append(jobs, job{kind, true, b})
+				jobs = append(jobs, job{kind, true, b, nil})
+			}
+		}
+		// rtu:// through the REAL serial port wrapper (deadline emulation) over a fake serial.Port
+		for _, b := range c07Behaviours(r) {
+			if b.name == "flood-foreign" {
+				continue
+			}
+			jobs = append(jobs, job{"rtu-serial", false, b, nil})
+		}
+		// "a valid reply that arrives before the timeout is never turned into a timeout", for the
+		// largest replies each transport can carry (MBAP frames of 255..260 bytes, RTU of 250..256)
+		var late peerBehaviour
+		for _, b := range c07Behaviours(r) {
+			if b.name == "late-valid" {
+				late = b
+			}
+		}
+		bigOps := []*Op{
+			{Name: "ReadRegisters", Addr: 7, Qty: 125}, {Name: "ReadRegisters", Addr: 7, Qty: 124}, {Name: "ReadRegisters", Addr: 7, Qty: 123},
+			{Name: "ReadRegisters", Addr: 7, Qty: 122}, {Name: "ReadCoils", Addr: 9, Qty: 2000}, {Name: "ReadCoils", Addr: 9, Qty: 1985},
+			{Name: "ReadCoils", Addr: 9, Qty: 1977}, {Name: "ReadDiscreteInputs", Addr: 9, Qty: 1969},
+		}
+		for _, kind := range []string{"tcp", "udp", "rtuovertcp", "rtuoverudp"} {
+			for _, op := range bigOps {
+				jobs = append(jobs, job{kind, true, late, op})
+			}
+		}
+		for _, kind := range []string{"tcp", "tcp+tls", "rtuovertcp", "rtu", "rtu-serial"} {
+			for _, op := range bigOps[:3] {
+				jobs = append(jobs, job{kind, false, late, op})
 			}
 		}
 		var wg sync.WaitGroup
@@ -131,7 +162,10 @@ func init() {
 				defer wg.Done()
 				defer func() { <-sem }()
 				const speed = 115200
-				op := &Op{Name: "ReadRegisters", Addr: uint16(ji), Qty: 2}
+				op := j.op
+				if op == nil {
+					op = &Op{Name: "ReadRegisters", Addr: uint16(ji), Qty: 2}
+				}
 				var out string
 				var elapsed time.Duration
 				var deadlines int
@@ -139,6 +173,28 @@ func init() {
 					if j.real {
 						out, elapsed = realSocketRun(j.kind, j.b, op, T, speed)
 						deadlines = -1
+						return
+					}
+					if j.kind == "rtu-serial" {
+						port := &FakeSerialPort{}
+						mc, err := modbus.VerifNewClientOnSerialPort(&modbus.ClientConfiguration{URL: "rtu:///dev/fake", Speed: speed, Timeout: T, Logger: quietLog}, port)
+						if err != nil {
+							out = "setup:" + err.Error()
+							return
+						}
+						stop := make(chan struct{})
+						port.OnWrite = func(b []byte, at time.Time) {
+							w := parseWire(true, b)
+							if w.ok {
+								go j.b.run(w, port.Feed, stop, T)
+							}
+						}
+						t0 := time.Now()
+						out = op.Exec(mc)
+						elapsed = time.Since(t0)
+						close(stop)
+						deadlines = -1
+						mc.Close()
 						return
 					}
 					conn := &TimedConn{}
@@ -170,6 +226,9 @@ func init() {
 				if isRTUKind(j.kind) {
 					margin += rtuMarginFor(speed, 8)
 				}
+				if j.kind == "rtu-serial" {
+					margin += 12 * time.Millisecond // the serial read granularity (10 ms) documented in serial.go
+				}
 				for try := 0; try < 3; try++ { // a bound is only reported when three consecutive runs exceed it
 					attempt()
 					if elapsed <= T+margin {
@@ -177,6 +236,9 @@ func init() {
 					}
 				}
 				label := fmt.Sprintf("%s/%s/%v", j.kind, j.b.name, j.real)
+				if j.op != nil {
+					label += fmt.Sprintf("/%s:%d", j.op.Name, j.op.Qty)
+				}
 				res.Eval(label+"/"+out[:min(len(out), 10)], true, fmt.Sprintf("%s real=%v peer=%s => %s in %v (T=%v, margin=%v, deadlines armed=%d)", j.kind, j.real, j.b.name, shorten(out, 40), elapsed, T, margin, deadlines))
 				res.Count("peer:" + j.b.name)
 				if elapsed > T+margin {
